@@ -171,6 +171,15 @@ func buildGraph(rc resolve.Client, root resolve.VersionKey, s *state) (*resolve.
 		if !hasRouteToRoot(rc, v, connected, s) {
 			return
 		}
+		// hasRouteToRoot marks a version false while it is on the search
+		// path, so a version met on a loop back to one still being
+		// explored is left false even when it is connected through it.
+		// Those answers are only final after a search that failed.
+		for k, c := range connected {
+			if !c {
+				delete(connected, k)
+			}
+		}
 		if _, ok := ids[p]; !ok {
 			// If this is the root package showing up again due to a
 			// loop, don't add a duplicate node.
